@@ -111,7 +111,11 @@ def run_case(case):
                 sR.integrate(sA.t, exact_finish_time=1)
                 ref = state(sR)
                 err_safe, err_safe2, err_unsafe = maxdiff(a, ref), maxdiff(state(sA2), ref), maxdiff(state(sU), ref)
-                if err_unsafe > 4 * max(err_safe, err_safe2) + 1e4 * EPS * (n + 2) * sc:
+                # processed outer schemes (pmlf4, pmlf6, plf7_6_4) apply their pre/post-processor only at synchronisation in unsafe mode:
+                # the inner scheme's error then no longer cancels between consecutive processors (observed ratios up to 13); a
+                # processor applied twice or skipped is an error of the order of the processor itself, 1e3-1e5 times larger
+                processed = str(spec['opts'].get('ri_eos.phi0', 'lf')).lower() in ('pmlf4', 'pmlf6', 'plf7_6_4')
+                if err_unsafe > (100 if processed else 4) * max(err_safe, err_safe2) + 1e4 * EPS * (n + 2) * sc:
                     add('sync:unsafe-error-exceeds-scheme-truncation:eos', 'opts %r n=%d: |unsafe(2n)-ref|=%.3e but |safe(n)-ref|=%.3e |safe(2n)-ref|=%.3e' % (spec['opts'], n, err_unsafe, err_safe, err_safe2))
                 # exact relation: unsafe mode synchronised after every step performs the same operations as safe mode
                 sC = gen.build_sim(specB)
